@@ -76,6 +76,7 @@ type cop struct {
 	Done   bool
 	Reply  model.Val
 	Raw    []byte
+	GaveUp bool // answered with an error by the node's own timer while uncommitted (clock advance event)
 }
 
 type sim struct {
@@ -361,6 +362,44 @@ func (s *sim) deliver(idx int) {
 func (s *sim) drop(idx int) { s.pool = append(s.pool[:idx], s.pool[idx+1:]...) }
 
 func (s *sim) dup(idx int) { s.pool = append(s.pool, s.pool[idx]) }
+
+// advanceClock moves the virtual clock (timers of the instrumented packages fire) and collects what
+// the connection handlers then tell their clients without a commit: an error reply to a command that
+// is still uncommitted ends the wait of that client ("gave up"); the entry may still commit later.
+func (s *sim) advanceClock(d time.Duration) {
+	rt.CurWorld().Advance(int64(d))
+	time.Sleep(2 * time.Millisecond) // the handlers' goroutines are free-running: let them react
+	for _, c := range s.clients {
+		if c.pending == 0 || c.dead || len(c.ops) == 0 {
+			continue
+		}
+		op := c.ops[len(c.ops)-1]
+		if op.Done {
+			continue
+		}
+		deadline := time.Now().Add(300 * time.Millisecond)
+		for len(c.conn.Output()) == 0 && time.Now().Before(deadline) {
+			time.Sleep(200 * time.Microsecond)
+		}
+		if len(c.conn.Output()) == 0 {
+			continue
+		}
+		raw, v, st := c.conn.TakeReply(60 * time.Second)
+		if st != "ok" {
+			continue
+		}
+		s.step++
+		op.Done, op.Ret, op.Reply, op.Raw = true, s.step, v, raw
+		if v.K == model.Error {
+			op.GaveUp = true
+		}
+		c.pending--
+		n := s.nodes[c.node]
+		n.mu.Lock()
+		delete(n.waiting, op.ID)
+		n.mu.Unlock()
+	}
+}
 
 func (s *sim) campaign(i int) {
 	if s.nodes[i].alive {
